@@ -160,7 +160,11 @@ class Result:
 
         ret = {}
         for branch in self.branches:
-            ret[branch.outcome] = int(branch.frequency * shots)
+            # NOTE: Some simulators return one branch per shot, so the same outcome
+            # may appear in several branches.
+            ret[branch.outcome] = ret.get(branch.outcome, 0) + int(
+                branch.frequency * shots
+            )
 
         return ret
 
